@@ -52,10 +52,10 @@ def deep_equal(seq1: Iterable[Any],
             return False
         return all(etree_deep_equal(c1, c2) for c1, c2 in zip(e1, e2))
 
-    if collation is None:
-        collation = UNICODE_CODEPOINT_COLLATION
+    def as_sequence(value: Any) -> Any:
+        return value if isinstance(value, list) else [value]
 
-    with CollationManager(collation, token=token) as cm:
+    def sequence_deep_equal(seq1: Iterable[Any], seq2: Iterable[Any]) -> bool:
         for value1, value2 in zip_longest(seq1, seq2):
             if isinstance(value1, XPathFunction) and \
                     not isinstance(value1, (XPathMap, XPathArray)):
@@ -72,13 +72,20 @@ def deep_equal(seq1: Iterable[Any],
             elif value1 is None:
                 return True
             elif isinstance(value1, XPathMap):
-                assert isinstance(value2, XPathMap)
-                if value1 != value2:
+                # same keys (op:same-key as implemented by the map) with deep-equal values
+                if not isinstance(value2, XPathMap) or len(value1) != len(value2):
                     return False
+                for k, v in value1.items():
+                    if k not in value2.keys() or \
+                            not sequence_deep_equal(as_sequence(v), as_sequence(value2(k))):
+                        return False
             elif isinstance(value1, XPathArray):
-                assert isinstance(value2, XPathArray)
-                if value1 != value2:
+                # same size and pairwise deep-equal members
+                if not isinstance(value2, XPathArray) or len(value1) != len(value2):
                     return False
+                for m1, m2 in zip(value1.items(), value2.items()):
+                    if not sequence_deep_equal(as_sequence(m1), as_sequence(m2)):
+                        return False
             elif isinstance(value1, XPathNode):
                 assert isinstance(value2, XPathNode)
                 if value1.__class__ != value2.__class__:
@@ -170,7 +177,13 @@ def deep_equal(seq1: Iterable[Any],
                 except TypeError:
                     return False
 
-    return True
+        return True
+
+    if collation is None:
+        collation = UNICODE_CODEPOINT_COLLATION
+
+    with CollationManager(collation, token=token) as cm:
+        return sequence_deep_equal(seq1, seq2)
 
 
 def deep_compare(obj1: Any,
